@@ -25,7 +25,7 @@ ASSUMPTIONS = ['fine bin j of coarse channel c (file order) maps to OBSFREQ + (c
 
 def required(tier):
     b = {'orient:asc': 20, 'orient:desc': 20, 'start_chan:0': 10, 'start_chan:>0': 30, 'kind:tone': 50, 'kind:chirp': 30,
-         'kind:reducers': 20, 'chirp:neg': 8, 'chirp:pos': 8, 'array': 10, 'reducer:from_raw': 10, 'reducer:directio-off': 3, 'reducer:directio-on': 3}
+         'kind:reducers': 20, 'stem-re-recorded': 40, 'chirp:neg': 8, 'chirp:pos': 8, 'array': 10, 'reducer:from_raw': 10, 'reducer:directio-off': 3, 'reducer:directio-on': 3}
     return {'buckets': b, 'counters': {'tones_located': 60, 'chirp_rows_located': 60}, 'checks': 300, 'nontrivial': 60}
 
 
@@ -124,6 +124,16 @@ def run_case(c, R):
     for s in target.streams:
         s.add_constant_signal(f_start=f_tone, drift_rate=drift, level=c['level'] * (2.0 if cfg['digitize'] else 1.0))
     stem = os.path.join(tmp, f"c07_{c['_idx']}")
+    if c['_idx'] % 3 == 0:
+        # history: the same stem held an earlier recording of ANOTHER band, which the library has already read
+        R.bucket('stem-re-recorded')
+        decoy = dict(cfg, fch1=cfg['fch1'] + 3.3e8, asc=not cfg['asc'], nblocks=1, tones=[], seed=cfg['seed'] + 9)
+        rd = work_raw.do_record(stg, decoy, stem, header_dict={'DIRECTIO': 1 - c['directio'], 'DECOY': 1})
+        with common.quiet():
+            raw_utils.get_raw_params(stem, start_chan=cfg['start_chan'])
+            raw_utils.read_header(rd['files'][0])
+        for f in rd['files']:
+            os.remove(f)
     hd = {'DIRECTIO': c['directio']}
     rec = work_raw.do_record(stg, cfg, stem, rvb=rvb, src=src, header_dict=hd)
     try:
